@@ -9,21 +9,30 @@ PROP = 'C03'
 LEAN_TARGETS = ['Props.C03']
 REQUIRED_THEOREMS = ['Props.C03.postorder_topological', 'Props.C03.each_fn_once', 'Props.C03.backward_completes',
                      'Props.C03.chain_rule_any_dag', 'Props.C03.optable_wellformed', 'Props.C03.code_loop_is_recursive_traversal']
+REQUIRED_THEOREMS += ['Props.C03.' + t for t in ['src_traversal_skeleton_is_modelled', 'src_sweep_skeleton_is_modelled', 'src_stack_step_is_model', 'src_visit_is_model', 'src_sweep_step_is_model', 'src_calls_grad_fn_is_model', 'src_backward_guard_is_model']]   # ties to the source read on this run
 RULE = ('every op of the catalogue (tensor and nn ops) inside a fan-out graph: its first operand is an interior tensor with a second consumer created before or after it; '
         'random DAG programs over the basic op catalogue (add, mul, neg, clone, pow, sum, mean, reshape, transpose, movedim, '
         'flatten, slice, unbind, stack, concat, matmul, squeeze, unsqueeze): 2-4 leaves of mixed requires_grad, up to 14 ops '
         '(quick) / 40 (thorough), results reused by later ops (fan-out), x op x, multi-output unbind, non-uniform upstream '
         'gradient; compared: every tensor value, flags, the engine trace (zero-inits and grad_fn calls in order), every '
         'gradient after backward, and the leaf gradients of the same DAG built in a shuffled topological order. '
-        'Non-trivial: >= 4 ops, a tensor consumed at least twice and a leaf that requires grad reachable from the root.')
+        'Non-trivial: >= 4 ops, a tensor consumed at least twice and a leaf that requires grad reachable from the root. '
+        'Backward HISTORIES over one graph (every op of the catalogue): the op consumes a leaf or an interior tensor that has other consumers '
+        '(neg, a constant product, x op x, the SAME op applied again with other arguments), created before or after it; 1-3 roots, each the '
+        'weighted total of a subset of the sinks summed in a shuffled order; 2-4 backward calls in any order of the roots (two roots sharing '
+        'the sub-graph one after another, the same root twice), leaves zeroed in between or left to accumulate; every leaf gradient '
+        'is compared after every call. Layer OBJECTS with state (BatchNorm1d / BatchNorm2d with running statistics through the layer or through '
+        'persistent tensors handed to the function, momentum incl. None; Dropout with dictated draws) called 2-5 times inside one graph in '
+        'train and eval mode, on leaves and on each other\'s outputs, before backward: the model is told the statistics / mask in force at '
+        'each call (documented rule), so what a call saved at forward time must be what its backward uses.')
 EXHAUSTIVE = {'quick': False, 'thorough': False}
 ASSUMPTIONS = ['float64 programs; summation order of NumPy reductions differs from the model by rounding only (rel 1e-9)']
 TRUSTED_BASE = ['harness/tprog.py, harness/gen_dag.py (generator, executor, canonicalisation)', 'harness/extract.py (op table extractor)']
 
 
 def extract():
-    import extract as ex
-    return ex.write_optable()
+    import extract as ex, engine_logic
+    return (ex.write_optable() or []) + engine_logic.write()[0]
 
 
 def fanout_case(rng, op):
@@ -118,6 +127,340 @@ def finish_case(rng, P, root=None):
             'desc': ' ; '.join(lines + [bw])[:900]}
 
 
+# ---- backward HISTORIES over one graph --------------------------------------------------------------------------------------
+def tag_lines(P, order=None):
+    """protocol lines of the program; a node may carry a `tag` (tokens starting with `@`): which layer OBJECT the implementation side
+    has to route the call through. The model never sees the tags (`to_model`), the plain executor ignores them."""
+    lines, ren = P.lines(order)
+    order = order if order is not None else list(range(len(P.nodes)))
+    return [l + (' ' + P.nodes[k]['tag'] if P.nodes[k].get('tag') else '') for l, k in zip(lines, order)], ren
+
+
+def to_model(line):
+    return ' '.join(tok for tok in line.split(' ') if not tok.startswith('@')) if '@' in line else line
+
+
+def ev_lines(events, P, ren=None):
+    out = []
+    for e in events:
+        t = e[1] if ren is None else ren[e[1]]
+        out.append(f"t bw {t} {show_ints(P.tshape[e[1]])} {show_floats(e[2])}" if e[0] == 'bw' else f't zero {t}')
+    return out
+
+
+def float_leaves(P):
+    return [nd['outs'][0] for nd in P.nodes if nd['kind'] == 'leaf' and nd.get('dt', 'f64') in ('f64', 'f32')]
+
+
+def finish_hist(rng, P, events, exec_=None):
+    """events: ('bw', tensor, upstream gradient) | ('zero', leaf) in order; every float leaf's gradient is queried after every backward call"""
+    lines, _ = tag_lines(P)
+    nt = len(P.tshape)
+    q = [f't val {k}' for k in range(nt)] + [f't flags {k}' for k in range(nt)]
+    lf = float_leaves(P)
+    evl = []
+    for e in events:
+        evl += ev_lines([e], P)
+        if e[0] == 'bw':
+            evl += [f't grad {k}' for k in lf]
+    after = [f't grad {k}' for k in range(nt)] + [f't flags {k}' for k in range(nt)]
+    uses = {}
+    for nd in P.nodes:
+        for i in nd['ins']:
+            uses[i] = uses.get(i, 0) + 1
+    bws = [e for e in events if e[0] == 'bw']
+    return {'P': P, 'kind': 'hist', 'exec': exec_, 'events': events, 'root': bws[-1][1], 'g': bws[-1][2], 'pre': [], 'lines': lines + q + evl + after,
+            'fanout': max(uses.values()) if uses else 0,
+            'desc': ' ; '.join(lines + ev_lines(events, P))[:1200]}
+
+
+def add_op_asking(P, op, ins, args, tag=None):
+    """append the op; its output shapes are the implementation's (None when the forward is rejected)"""
+    lines, _ = P.lines()
+    opline = ' '.join(['t op', op, show_ints(ins)] + [str(a) for a in args])
+    base = len(P.tshape)
+    io = tprog.run_program(lines + [opline] + [f't val {base + k}' for k in range(4)])
+    r = io[len(lines)]
+    if r in ('rejected', 'hidden') or not r.startswith('t'):
+        return None
+    nout = len(r.split(','))
+    if nout > 4:
+        io = tprog.run_program(lines + [opline] + [f't val {base + k}' for k in range(nout)])
+    shp = io[len(lines) + 1:len(lines) + 1 + nout]
+    outs = P.add_op(op, list(ins), list(args), [tuple(common.parse_ints(s_.split('|')[0])) if '|' in s_ else () for s_ in shp])
+    if tag: P.nodes[-1]['tag'] = tag
+    return outs
+
+
+def total_of(rng, P, sinks):
+    """sum over the given tensors of sum(t * w) with constant non-uniform weights, the summands in the given order"""
+    total = None
+    for t in sinks:
+        w = P.add_leaf(P.tshape[t], gen_dag.rand_data(rng, P.tshape[t]), False)
+        m = P.add_op('mul', [t, w], [], [P.tshape[t]])[0]
+        r = P.add_op('sum', [m], ['all', 0], [()])[0]
+        total = r if total is None else (P.add_op('add', [total, r], [], [()])[0] if rng.chance(.5) else P.add_op('add', [r, total], [], [()])[0])
+    return total
+
+
+TIE_OPS = ('max', 'min', 'max_pool1d', 'max_pool2d')
+
+
+def shared_case(rng, op):
+    """ANY op of the catalogue as a node that SEVERAL backward calls traverse, inside a graph in which the tensor it consumes (a leaf
+    or an interior tensor) has other consumers, created before or after it — among them the same op applied AGAIN with other arguments
+    (unbind along dim 0 and along dim -1 of one tensor). 1-3 roots, each the weighted total of a subset of the sinks summed in a
+    shuffled order (which backward function reaches the shared buffer first depends on it); the history back-propagates the roots one
+    after another, in any order, a root possibly twice, the leaves zeroed in between or left to accumulate."""
+    import gen_ops
+    gen = gen_ops.gen_basic if op in gen_ops.OPS_BASIC else gen_ops.gen_nn
+    for _ in range(30):
+        leaves, args = gen(rng, op, False)
+        if op in TIE_OPS and len(set(leaves[0][1])) != len(leaves[0][1]): continue      # ties: not differentiable, the subject of C01 / C02
+        break
+    else:
+        return None
+    P = gen_dag.Prog()
+    for k, lf in enumerate(leaves):
+        dt = lf[3] if len(lf) > 3 else 'f64'
+        P.add_leaf(lf[0], lf[1], (True if k == 0 else (lf[2] if len(lf) > 2 else True)) and dt == 'f64', dt)
+    nl = len(leaves)
+    s0 = leaves[0][0]
+    x = P.add_op('clone', [0], [], [s0])[0] if rng.chance(.5) else 0
+    plan = ['op'] + (['op2'] if rng.chance(.4) else []) + [rng.pick(['neg', 'mulw', 'self2']) for _ in range(rng.randint(0, 2))]
+    if len(plan) < 2: plan.append(rng.pick(['neg', 'mulw', 'self2', 'op2']))
+    rng.shuffle(plan)
+    opouts, sinks = [], []
+    for item in plan:
+        if item == 'op':
+            o = add_op_asking(P, op, [x] + list(range(1, nl)), args)
+            if o is None: return None
+            opouts += o; sinks += o
+        elif item == 'op2':
+            # the same op once more on the same tensor: other arguments (and other further operands) when the per-op generator
+            # yields some for an operand of this shape, else the very same call again
+            ins2, args2 = [x] + list(range(1, nl)), args
+            for _ in range(40):
+                l2, a2 = gen(rng, op, False)
+                if tuple(l2[0][0]) == tuple(s0) and len(l2) == nl:
+                    ins2 = [x] + [P.add_leaf(lf[0], lf[1], (lf[2] if len(lf) > 2 else True) and (lf[3] if len(lf) > 3 else 'f64') == 'f64', lf[3] if len(lf) > 3 else 'f64') for lf in l2[1:]]
+                    args2 = a2
+                    break
+            o = add_op_asking(P, op, ins2, args2)
+            if o is None: continue
+            opouts += o; sinks += o
+        elif item == 'neg':
+            sinks += P.add_op('neg', [x], [], [s0])
+        elif item == 'mulw':
+            w = P.add_leaf(s0, gen_dag.rand_data(rng, s0), False)
+            sinks += P.add_op('mul', [x, w] if rng.chance(.5) else [w, x], [], [s0])
+        else:
+            sinks += P.add_op(rng.pick(['add', 'mul']), [x, x], [], [s0])
+    if not opouts: return None
+    nroots = rng.pick([1, 2, 2, 3])
+    roots, through = [], []
+    for r in range(nroots):
+        sub = [t for t in sinks if rng.chance(.6)]
+        if r == 0 and not any(t in opouts for t in sub): sub.append(rng.pick(opouts))
+        if not sub: sub = [rng.pick(sinks)]
+        rng.shuffle(sub)
+        roots.append(total_of(rng, P, sub))
+        through.append(any(t in opouts for t in sub))
+    seq = list(range(nroots)) + [rng.randrange(nroots) for _ in range(rng.randint(0, 1))]
+    rng.shuffle(seq)
+    if sum(1 for r in seq if through[r]) < 2:        # the op's node is traversed by at least two calls
+        seq.insert(rng.randint(0, len(seq)), 0)
+    events = []
+    lf = [nd['outs'][0] for nd in P.nodes if nd['kind'] == 'leaf' and nd['rg']]
+    for k, r in enumerate(seq):
+        if k and rng.chance(.25):
+            events += [('zero', t) for t in lf]
+        events.append(('bw', roots[r], gen_dag.rand_data(rng, (), -2, 2)))
+    c = finish_hist(rng, P, events)
+    c['hist_op'] = op
+    c['shape'] = {'roots': nroots, 'calls': len(seq), 'same_root_twice': len(set(seq)) < len(seq), 'op_twice': len([p for p in plan if p in ('op', 'op2')]) > 1,
+                  'operand': 'leaf' if x == 0 else 'interior', 'zeroed_between': any(e[0] == 'zero' for e in events)}
+    return c
+
+
+# ---- layer objects with state ---------------------------------------------------------------------------------------------
+class StatefulExec(tprog.Impl):
+    """routes the tagged calls through layer OBJECTS that live as long as the program: `@bn<k>:L|F:<momentum bits or ->` — batch norm
+    through one nn.BatchNorm1d / BatchNorm2d object (L; train() / eval() switched per call, its parameters ARE the program's operand
+    tensors) or through the function with one persistent pair of running-statistics tensors (F); `@do<k>:<p bits>` on `mul x,m` — one
+    nn.Dropout object in train mode whose uniform draws are dictated so that its mask is the leaf m; `@via<i>=do<k>:<p bits>` —
+    operand i first passes through that Dropout object in EVAL mode (the identity)."""
+    def __init__(self):
+        super().__init__()
+        self.layers = {}
+
+    def _dropout(self, key, p):
+        if key not in self.layers:
+            self.layers[key] = self.nn.Dropout(p)
+        return self.layers[key]
+
+    def call_op(self, name, ins, args):
+        tags = [a[1:] for a in args if a.startswith('@')]
+        args = [a for a in args if not a.startswith('@')]
+        saved = {}
+        try:
+            for tg in tags:
+                if tg.startswith('via'):
+                    pos, spec = tg[3:].split('=')
+                    key, pb = spec.split(':')
+                    m = self._dropout(key, common.bitsf(pb)); m.eval()
+                    i = ins[int(pos)]
+                    saved[i] = self.ts[i]
+                    self.ts[i] = m(saved[i])
+            for tg in tags:
+                if tg.startswith('bn'):
+                    return self._bn(tg, [self.ts[i] for i in ins], args)
+                if tg.startswith('do'):
+                    return self._do(tg, [self.ts[i] for i in ins])
+            return super().call_op(name, ins, args)
+        finally:
+            for i, v in saved.items():
+                self.ts[i] = v
+
+    def _do(self, tg, x):
+        key, pb = tg.split(':')
+        p = common.bitsf(pb)
+        m = self._dropout(key, p); m.train()
+        mask = x[1].data
+        draws = np.where(mask == 0, p / 2, (1 + p) / 2).astype(np.float64)
+        orig = np.random.rand
+        def rand(*shape):
+            assert tuple(shape) == tuple(draws.shape), (shape, draws.shape)
+            return draws.copy()
+        np.random.rand = rand
+        try:
+            return m(x[0])
+        finally:
+            np.random.rand = orig
+
+    def _bn(self, tg, x, args):
+        key, entry, mb = tg.split(':')
+        mom = None if mb == '-' else common.bitsf(mb)
+        hw, hb, tr = bool(int(args[0])), bool(int(args[1])), bool(int(args[2]))
+        eps = common.bitsf(args[3])
+        w = x[1] if hw else None
+        b = (x[2] if hw else x[1]) if hb else None
+        sg, nn = self.sg, self.nn
+        if key not in self.layers:
+            rm = np.array(common.parse_floats(args[4]), dtype=np.float64)
+            rv = np.array(common.parse_floats(args[5]), dtype=np.float64)
+            if entry == 'L':
+                m = (nn.BatchNorm2d if x[0].data.ndim == 4 else nn.BatchNorm1d)(len(rm), eps=eps, momentum=mom, affine=hw, track_running_stats=True, dtype=np.float64)
+                m.running_mean.data = rm; m.running_var.data = rv
+                self.layers[key] = m
+            else:
+                self.layers[key] = (sg.Tensor(rm), sg.Tensor(rv))
+        L = self.layers[key]
+        if entry == 'L':
+            object.__setattr__(L, 'weight', w)
+            object.__setattr__(L, 'bias', b)
+            L.train() if tr else L.eval()
+            return L(x[0])
+        return sg.batch_norm(x[0], w, b, L[0], L[1], tr, mom, eps)
+
+
+EXECS = {None: tprog.Impl, 'stateful': StatefulExec}
+
+
+def _bn_np(X, gam, bet, m, v, eps):
+    ks = [1] * X.ndim; ks[1] = X.shape[1]
+    Y = (X - m.reshape(ks)) / np.sqrt(v.reshape(ks) + eps)
+    if gam is not None: Y = Y * gam.reshape(ks)
+    if bet is not None: Y = Y + bet.reshape(ks)
+    return Y
+
+
+def stateful_case(rng):
+    """layer OBJECTS with state called several times inside ONE graph, in different modes, before backward: BatchNorm with running
+    statistics (a training call moves the statistics an earlier or later eval call normalises with), Dropout (every training call
+    draws another mask, an eval call is the identity). Inputs are fresh leaves, earlier results (chains through the same layer) or
+    their negation; all sinks are joined by a weighted total. The model — and the finite-difference oracle — are told on every line the
+    statistics / mask IN FORCE at that call (running statistics by the documented update rule), i.e. the function the forward pass
+    computed; the implementation side goes through the live objects."""
+    import gen_ops
+    C, N = rng.randint(1, 3), rng.randint(2, 4)
+    sh = (N, C) + rng.pick([(), (), (2,), (2, 2), (1, 2)])
+    cnt = int(np.prod(sh)) // C
+    P = gen_dag.Prog()
+    V = {}
+    def leaf(shape, data, rg):
+        t = P.add_leaf(shape, data, rg); V[t] = np.array(data, dtype=np.float64).reshape(shape); return t
+    pool = [leaf(sh, gen_ops.vals(rng, sh), True)]
+    layers = []
+    for j in range(rng.randint(1, 2)):
+        entry = rng.pick(['L', 'F'])
+        hw = rng.chance(.7); hb = hw if entry == 'L' else rng.chance(.6)
+        L = {'kind': 'bn', 'key': f'bn{j}', 'entry': entry, 'hw': hw, 'hb': hb, 'eps': rng.pick([1e-5, 1e-3]),
+             'mom': rng.pick([0.1, 0.5, 0.5, None] if entry == 'L' else [0.1, 0.5]),
+             'rm': np.array([rng.dyadic(-1, 1) for _ in range(C)]), 'rv': np.array([rng.randint(2, 24) / 8 for _ in range(C)]), 'n': 0, 'modes': []}
+        L['w'] = leaf((C,), gen_ops.vals(rng, (C,), 'pos'), rng.chance(.85)) if hw else None
+        L['b'] = leaf((C,), gen_ops.vals(rng, (C,)), rng.chance(.85)) if hb else None
+        layers.append(L)
+    for j in range(rng.randint(0, 1)):
+        layers.append({'kind': 'do', 'key': f'do{j}', 'p': rng.pick([0.25, 0.5, 0.75, 0.1]), 'modes': []})
+    ncalls = rng.randint(2, 5)
+    # most cases hold the pattern "a layer normalises in eval mode, the SAME layer is trained later, then backward"
+    # ... or "one Dropout object draws a mask, then another one (with an eval-mode call in between), then backward"
+    focus = rng.pick(layers)
+    script = []
+    if rng.chance(.75):
+        script = [(focus, False), (focus, True)] if focus['kind'] == 'bn' else [(focus, True), (focus, False), (focus, True)] if rng.chance(.4) else [(focus, True), (focus, True)]
+    while len(script) < ncalls:
+        script.insert(rng.randint(0, len(script)) if rng.chance(.4) else len(script), (rng.pick(layers), rng.chance(.5)))
+    for L, tr in script:
+        x = leaf(sh, gen_ops.vals(rng, sh), rng.chance(.7)) if rng.chance(.3) else (pool[-1] if rng.chance(.5) else rng.pick(pool))
+        if rng.chance(.15):
+            x0 = x; x = P.add_op('neg', [x0], [], [sh])[0]; V[x] = -V[x0]
+        L['modes'].append('train' if tr else 'eval')
+        if L['kind'] == 'bn':
+            ins = [x] + ([L['w']] if L['hw'] else []) + ([L['b']] if L['hb'] else [])
+            args = [int(L['hw']), int(L['hb']), int(tr), common.fbits(L['eps']), show_floats(L['rm']), show_floats(L['rv'])]
+            out = P.add_op('batch_norm', ins, args, [sh])[0]
+            P.nodes[-1]['tag'] = f"@{L['key']}:{L['entry']}:{'-' if L['mom'] is None else common.fbits(L['mom'])}"
+            X = V[x]
+            axes = tuple(i for i in range(X.ndim) if i != 1)
+            gam = V[L['w']] if L['hw'] else None; bet = V[L['b']] if L['hb'] else None
+            if tr:
+                m, v = X.mean(axes), X.var(axes)
+                V[out] = _bn_np(X, gam, bet, m, v, L['eps'])
+                L['n'] += 1
+                f = L['mom'] if L['mom'] is not None else 1.0 / L['n']
+                L['rm'] = m * f + L['rm'] * (1 - f)
+                L['rv'] = v * (cnt / (cnt - 1)) * f + L['rv'] * (1 - f)
+            else:
+                V[out] = _bn_np(X, gam, bet, L['rm'], L['rv'], L['eps'])
+        elif tr:
+            p = L['p']
+            mask = [(0.0 if rng.random() <= p else 1.0 / (1 - p)) for _ in range(int(np.prod(sh)))]
+            mk = leaf(sh, mask, False)
+            out = P.add_op('mul', [x, mk], [], [sh])[0]
+            P.nodes[-1]['tag'] = f"@{L['key']}:{common.fbits(p)}"
+            V[out] = V[x] * V[mk]
+        else:
+            out = P.add_op(rng.pick(['neg', 'clone']), [x], [], [sh])[0]
+            P.nodes[-1]['tag'] = f"@via0={L['key']}:{common.fbits(L['p'])}"
+            V[out] = -V[x] if P.nodes[-1]['name'] == 'neg' else V[x]
+        pool.append(out)
+    used = {i for nd in P.nodes for i in nd['ins']}
+    sinks = [t for t in range(len(P.tshape)) if t not in used and P.nodes[P.owner[t]]['kind'] == 'op']
+    rng.shuffle(sinks)
+    roots = [total_of(rng, P, sinks)]
+    if rng.chance(.3):
+        roots.append(total_of(rng, P, [t for t in sinks if rng.chance(.6)] or sinks[:1]))
+    seq = list(range(len(roots))) + ([rng.randrange(len(roots))] if rng.chance(.2) else [])
+    rng.shuffle(seq)
+    events = [('bw', roots[r], gen_dag.rand_data(rng, (), -2, 2)) for r in seq]
+    c = finish_hist(rng, P, events, 'stateful')
+    c['order'] = None
+    c['stateful'] = {f"{L['key']}:{L.get('entry', '')}:{'mom=None' if L.get('mom', 0) is None else ''}": '>'.join(L['modes']) for L in layers}
+    return c
+
+
 def cases(rng, tier):
     out = []
     for _ in range(120 if tier == 'quick' else 4000):
@@ -135,6 +478,17 @@ def cases(rng, tier):
             if c:
                 c['order'] = c['P'].topo_shuffle(rng)
                 out.append(c)
+    # backward HISTORIES: every op of the catalogue as a node that several backward calls traverse, with operands that have
+    # other consumers (so the buffers it accumulates into are never fresh)
+    for op in gen_ops.OPS_BASIC + gen_ops.OPS_NN:
+        for _ in range(3 if tier == 'quick' else 40):
+            c = shared_case(rng, op)
+            if c:
+                c['order'] = c['P'].topo_shuffle(rng)
+                out.append(c)
+    # layer objects with state, called several times in one graph in different modes before backward
+    for _ in range(40 if tier == 'quick' else 1200):
+        out.append(stateful_case(rng))
     # corpus: diamond, repeated operand, unbind outputs consumed separately, non-differentiable branch
     for spec in CORPUS:
         P = gen_dag.Prog()
@@ -159,7 +513,7 @@ CORPUS = [
 
 
 def impl(c):
-    return tprog.run_program(c['lines'])
+    return tprog.run_program(c['lines'], EXECS[c.get('exec')])
 
 
 def compare(c, mo, io):
@@ -167,16 +521,21 @@ def compare(c, mo, io):
     if diffs:
         return diffs
     # order independence (implementation only): same DAG, another construction order
+    if c.get('order') is None:
+        return []        # calls on objects with state: the order of the calls is part of the program
     P = c['P']
     lines2, ren = P.lines(c['order'])
     nt = len(P.tshape)
-    root2 = ren[c['root']]
-    prog2 = lines2 + [f"t bw {root2} {show_ints(P.tshape[c['root']])} {show_floats(c['g'])}"] + [f't grad {ren[k]}' for k in range(nt)]
+    if c.get('kind') == 'hist':
+        evs = ev_lines(c['events'], P, ren)
+    else:
+        evs = [f"t bw {ren[c['root']]} {show_ints(P.tshape[c['root']])} {show_floats(c['g'])}"]
+    prog2 = lines2 + evs + [f't grad {ren[k]}' for k in range(nt)]
     io2 = tprog.run_program(prog2)
     base = len(c['lines']) - 2 * nt
     for k in range(nt):
         if P.nodes[P.owner[k]]['kind'] == 'leaf':
-            a, b = io[base + k], io2[len(lines2) + 1 + k]
+            a, b = io[base + k], io2[len(lines2) + len(evs) + k]
             if b == '-' and c.get('pre') and a != '-' and not np.any(tprog.parse_arr(a)):
                 continue        # a leaf the main call does not reach was zeroed after the preliminary call: zeros, not None
             if not tprog.close_line(a, b):
@@ -197,6 +556,24 @@ def distribution(cases):
             k = n.get('name', 'leaf')
             d[k] = d.get(k, 0) + 1
     d['max_ops'] = max(sum(1 for n in c['P'].nodes if n['kind'] == 'op') for c in cases)
+    hist = [c for c in cases if c.get('kind') == 'hist' and c.get('hist_op')]
+    d['histories: op node traversed by several backward calls, operand shared'] = len(hist)
+    for c in hist:
+        sh = c['shape']
+        for k in (f"history/calls={sh['calls']}", f"history/roots={sh['roots']}", f"history/operand={sh['operand']}") + \
+                 tuple(f'history/{f}' for f in ('same_root_twice', 'op_twice', 'zeroed_between') if sh[f]):
+            d[k] = d.get(k, 0) + 1
+    d['history/ops covered'] = len({c['hist_op'] for c in hist})
+    st = [c for c in cases if c.get('exec') == 'stateful']
+    d['stateful: layer objects called several times in one graph'] = len(st)
+    for c in st:
+        for key, modes in c['stateful'].items():
+            kind = key[:2] + ('/layer' if ':L:' in key else '/function' if ':F:' in key else '') + ('/momentum=None' if 'mom=None' in key else '')
+            d[f'stateful/{kind} calls'] = d.get(f'stateful/{kind} calls', 0) + len(modes.split('>')) * bool(modes)
+            if 'eval>train' in modes or ('eval' in modes and modes.rfind('train') > modes.find('eval')):
+                d[f'stateful/{key[:2]} eval-then-train on one object'] = d.get(f'stateful/{key[:2]} eval-then-train on one object', 0) + 1
+            if 'train' in modes and modes.rfind('eval') > modes.find('train'):
+                d[f'stateful/{key[:2]} train-then-eval on one object'] = d.get(f'stateful/{key[:2]} train-then-eval on one object', 0) + 1
     return d
 
 
@@ -220,13 +597,13 @@ def _forward(P, leaf_vals, root):
         im.close()
 
 
-def fd_check(P, root, g, grads, tol=2e-5):
-    """grads: dict leaf tensor id -> array or None.  Returns a failure dict or None."""
+def fd_grads(P, root, g):
+    """central finite differences of the implementation's own forward: leaf tensor id -> d <root, g> / d leaf, for every leaf that requires grad"""
     leaves = [n for n in P.nodes if n['kind'] == 'leaf']
     vals = [list(n['data']) for n in leaves]
     G = np.array(g, dtype=np.float64).reshape(P.tshape[root])
+    out = {}
     for li, nd in enumerate(leaves):
-        tid = nd['outs'][0]
         if not nd['rg']:
             continue
         num = np.zeros(len(nd['data']))
@@ -235,15 +612,90 @@ def fd_check(P, root, g, grads, tol=2e-5):
             v1 = [list(v) for v in vals]; v1[li][e] += h
             v2 = [list(v) for v in vals]; v2[li][e] -= h
             num[e] = float(((_forward(P, v1, root) - _forward(P, v2, root)) * G).sum()) / (2 * h)
+        out[nd['outs'][0]] = num
+    return out
+
+
+def far_apart(got, num, tol):
+    """True when `got` differs from the reference `num` by more than tol relative to their scale; a non-finite entry of `got` where
+    the reference is finite is a difference; where the reference itself is not finite (the forward value is NaN / inf around that
+    point) nothing can be said"""
+    got, num = np.asarray(got, dtype=np.float64).ravel(), np.asarray(num, dtype=np.float64).ravel()
+    if got.shape != num.shape:
+        return True
+    fin = np.concatenate([np.abs(got[np.isfinite(got)]), np.abs(num[np.isfinite(num)]), [1.0]])
+    scale = float(fin.max())
+    with np.errstate(all='ignore'):
+        ok = (np.abs(got - num) <= tol * scale) | (got == num) | ~np.isfinite(num)
+    return not bool(np.all(ok))
+
+
+def fd_check(P, root, g, grads, tol=2e-5):
+    """grads: dict leaf tensor id -> array or None.  Returns a failure dict or None."""
+    for tid, num in fd_grads(P, root, g).items():
         got = grads.get(tid)
-        got = np.zeros(len(nd['data'])) if got is None else np.asarray(got, dtype=np.float64).ravel()
-        scale = max(1.0, float(np.abs(num).max()), float(np.abs(got).max()))
-        if got.shape != num.shape or np.abs(got - num).max() > tol * scale:
+        got = np.zeros(len(num)) if got is None else np.asarray(got, dtype=np.float64).ravel()
+        if far_apart(got, num, tol):
             return {'leaf': tid, 'got': got.tolist(), 'finite_difference': num.tolist()}
     return None
 
 
+def hist_oracle(c):
+    """every backward call of the history must ADD d <root, g> / d leaf (finite differences of the implementation's own forward, with
+    whatever state a layer used given as a constant) to what the leaf held"""
+    P = c['P']
+    lines, _ = tag_lines(P)
+    lf = float_leaves(P)
+    rg = {nd['outs'][0] for nd in P.nodes if nd['kind'] == 'leaf' and nd['rg']}
+    prog, pos = list(lines), []
+    for e in c['events']:
+        prog += ev_lines([e], P)
+        pos.append(len(prog) - 1)
+        if e[0] == 'bw':
+            prog += [f't grad {k}' for k in lf]
+    io = tprog.run_program(prog, EXECS[c.get('exec')])
+    key = {'ops': sorted({n['name'] for n in P.nodes if n['kind'] == 'op'}), 'history': True}
+    if 'rejected' in io[:len(lines)]:
+        return None
+    want = {k: None for k in lf}
+    cache = {}
+    for n, (e, at) in enumerate(zip(c['events'], pos)):
+        if e[0] == 'zero':
+            if io[at] == 'ok': want[e[1]] = np.zeros(int(np.prod(P.tshape[e[1]])) if P.tshape[e[1]] else 1)
+            continue
+        if io[at] == 'rejected':
+            fl = tprog.run_program(prog[:at] + [f"t flags {e[1]}"], EXECS[c.get('exec')])
+            if 'rg=1' in fl[-1]:
+                return {'key': dict(key, cls='backward-raises'), 'case': _strip(c), 'what': f'backward call #{n} raised on a root that requires grad'}
+            continue
+        ck = (e[1], tuple(e[2]))
+        if ck not in cache: cache[ck] = fd_grads(P, e[1], e[2])
+        for j, k in enumerate(lf):
+            if k in rg:
+                want[k] = cache[ck][k] + (0 if want[k] is None else want[k])
+            s_ = io[at + 1 + j]
+            got = None if s_ in ('-', 'rejected', 'hidden') else tprog.parse_arr(s_).ravel()
+            w = want[k]
+            if got is None and w is None: continue
+            n_el = len(w) if w is not None else len(got)
+            if far_apart(np.zeros(n_el) if got is None else got, np.zeros(n_el) if w is None else w, 2e-5):
+                return {'key': dict(key, cls='gradient'), 'case': _strip(c),
+                        'what': f"after backward call #{n} (of {sum(1 for q in c['events'] if q[0] == 'bw')}, root t{e[1]}) leaf t{k} holds {None if got is None else got.tolist()}; "
+                                f"the sum of the chain-rule values of the calls so far (finite differences of the composed function) is {None if w is None else w.tolist()}"}
+    return None
+
+
+def fd_blind(P):
+    """operands riding on a level of 2^20 and more (the wide-level batch-norm data of C02 / C06): a step of 1e-6 is below their
+    resolution, finite differences say nothing"""
+    return any(abs(v) >= 2.0 ** 20 for nd in P.nodes if nd['kind'] == 'leaf' and nd.get('dt', 'f64') == 'f64' for v in nd['data'])
+
+
 def oracle(c):
+    if fd_blind(c['P']):
+        return None
+    if c.get('kind') == 'hist':
+        return hist_oracle(c)
     P = c['P']
     lines, _ = P.lines()
     nt = len(P.tshape)
@@ -273,16 +725,15 @@ def oracle(c):
 
 def _strip(c):
     P = c['P']
-    return {'nodes': P.nodes, 'root': c['root'], 'g': c['g'], 'pre': c.get('pre') or []}
+    d = {'nodes': P.nodes, 'root': c['root'], 'g': c['g'], 'pre': c.get('pre') or []}
+    if c.get('kind') == 'hist':
+        d.update({'kind': 'hist', 'events': [list(e) for e in c['events']], 'exec': c.get('exec')})
+    return d
 
 
 def _unstrip(d):
     P = gen_dag.Prog()
-    for nd in d['nodes']:
-        if nd['kind'] == 'leaf':
-            P.add_leaf(tuple(nd['shape']), nd['data'], nd['rg'], nd.get('dt', 'f64'))
-        else:
-            P.nodes.append(nd)
+    P.nodes = list(d['nodes'])        # (the stored nodes carry their tensor ids; leaves may be interleaved with ops)
     # recompute shapes by running the implementation
     lines, _ = P.lines()
     P2 = gen_dag.Prog()
@@ -293,13 +744,27 @@ def _unstrip(d):
             P2.add_leaf(tuple(nd['shape']), nd['data'], nd['rg'], nd.get('dt', 'f64'))
         else:
             P2.add_op(nd['name'], nd['ins'], nd['args'], [shapes[o] for o in nd['outs']])
-    return {'P': P2, 'root': d['root'], 'g': d['g'], 'pre': d.get('pre') or []}
+            if nd.get('tag'): P2.nodes[-1]['tag'] = nd['tag']
+    c = {'P': P2, 'root': d['root'], 'g': d['g'], 'pre': d.get('pre') or []}
+    if d.get('kind') == 'hist':
+        c.update({'kind': 'hist', 'events': [tuple(e) for e in d['events']], 'exec': d.get('exec')})
+    return c
 
 
 def search(rng, tier):
     for _ in range(60):
         c = build_case(rng, 'quick')
         f = oracle(c)
+        if f:
+            yield f
+    import gen_ops
+    for op in gen_ops.OPS_BASIC + gen_ops.OPS_NN:
+        c = shared_case(rng, op)
+        f = c and oracle(c)
+        if f:
+            yield f
+    for _ in range(30):
+        f = oracle(stateful_case(rng))
         if f:
             yield f
 
